@@ -68,10 +68,16 @@ func (s *Streamer) Stream(ctx context.Context, sendTransaction SendTransactionFu
 		return err.msgf("newMysqlConn fail.")
 	}
 	defer conn.close()
+	// The reader goroutine must end when this call returns, whatever the
+	// reason: if the parser stops with an error while the reader is handing
+	// over an event, nobody will ever take it. Give the reader a context that
+	// ends with this call.
+	readerCtx, cancel := context.WithCancel(ctx)
+	defer cancel()
 	s.sendTransaction = sendTransaction
 	var events <-chan replication.BinlogEvent
 	var pos Position
-	events, err = conn.startDumpFromBinlogPosition(ctx, s.serverID, s.binlogPosition())
+	events, err = conn.startDumpFromBinlogPosition(readerCtx, s.serverID, s.binlogPosition())
 	if err != nil {
 		return err.msgf("startDumpFromBinlogPosition fail in pos: %+v", s.nowPos)
 	}
